@@ -7,7 +7,12 @@ class SameID:
       return super()._process_not_unique(previous)
     self._check_tags_of_previous_group_definition(previous)
     self._gfa = previous.gfa
-    self._initialize_references()
+    try:
+      self._initialize_references()
+    except:
+      # a refused line leaves no reference behind
+      self._undo_partial_connection(previous.gfa)
+      raise
     cur_items = self.get("items")
     self._substitute_virtual_line(previous)
     self._set_existing_field("items", self.get("items") + cur_items, 
